@@ -172,6 +172,25 @@ class Checker:
             forms += [("N/D", (N / D) * (x * k)), ("N*(1/D)", (N * (1.0 / D)) * (x * k)), ("(1/D)*N", ((1.0 / D) * N) * (x * k))]
         ma = mag_of(um, a.GetQuantity(), a.GetValue())
         tol = max(FLOOR, 2 * u_row(info)) + 1e-9
+        # a composition that is one unit raised to an exponent (1/ft, ft2, 1/bbl ...) can be re-expressed through the
+        # public exponent-list conversion into the base unit of that quantity type: that number is the row's amount too
+        if len(comp) == 1 and comp[0][2] != 1 and um.offset[comp[0][1]] == 0:
+            coef, cu, ce = comp[0]
+            base_u = um.base[um.qt[cu]]
+            b0 = forms[0][1]
+            ctx.ev()
+            try:
+                in_base = b0.GetValue([(base_u, ce)])
+            except Exception as e:
+                if core.tree_frame(e) is None:
+                    raise
+                in_base = None
+                ctx.cls("exponent_list_conversion_raises_%s" % type(e).__name__)
+            if in_base is not None and math.isfinite(ma) and ma != 0:
+                mb0 = in_base * (um.slope[base_u] ** ce)
+                if abs(mb0 / ma - 1) > tol:
+                    ctx.record("scalar_form_exponent_list_conversion:%s" % sym, {"sym": sym, "kind": "scalar_form", "reading": [list(c) for c in comp], "x": x}, "Scalar(%r,%r) is %.10g in base units; its composition %r converted with GetValue([(%r,%d)]) gives %.10g" % (x, sym, ma, b0, base_u, ce, mb0))
+                ctx.cls("scalar_form_exponent_list_conversion")
         for fname, b in forms:
             ctx.ev()
             mb = mag_of(um, b.GetQuantity(), b.GetValue())
